@@ -152,10 +152,19 @@ pub fn json_str(val: impl fmt::Display) -> impl fmt::Display {
 
     impl fmt::Write for WriteJsonStr<'_, '_> {
         fn write_str(&mut self, mut s: &str) -> fmt::Result {
-            while let Some(idx) = s.find(['"', '\\']) {
+            while let Some(idx) = s.find(|ch: char| {
+                ch == '"' || ch == '\\' || ch < ' '
+            }) {
                 self.0.write_str(&s[..idx])?;
-                self.0.write_str("\\")?;
-                write!(self.0, "{}", char::from(s.as_bytes()[idx]))?;
+                let ch = char::from(s.as_bytes()[idx]);
+                if ch < ' ' {
+                    // Control characters must be escaped, too.
+                    write!(self.0, "\\u{:04x}", u32::from(ch))?;
+                }
+                else {
+                    self.0.write_str("\\")?;
+                    write!(self.0, "{}", ch)?;
+                }
                 s = &s[idx + 1..];
             }
             self.0.write_str(s)
